@@ -124,8 +124,27 @@ def o_header_history(case):
     nonce = case["nonce"]
     b = Block(case["version"], prev, root, case["time"], case["bits"], nonce)
     labels, asked, changed_after_ask = ["net=" + case["net"]], False, False
+    fields = {"version": case["version"], "timestamp": case["time"], "difficulty": case["bits"]}
     for step, op in enumerate(case["ops"]):
-        raw = ref.ser_header(case["version"], prev, root, case["time"], case["bits"], nonce)
+        raw = ref.ser_header(fields["version"], prev, root, fields["timestamp"], fields["difficulty"], nonce)
+        if op[0] == "set":
+            # the header fields are plain public attributes: a miner rolls the timestamp, a template gets its merkle root late
+            if op[1] == "merkle_root":
+                root = bytes([op[2] % 256]) * 32
+                b.merkle_root = root
+            elif op[1] == "previous_block_hash":
+                prev = bytes([op[2] % 256]) * 32
+                b.previous_block_hash = prev
+            elif op[1] == "nonce":
+                nonce = op[2]
+                b.nonce = nonce
+            else:
+                fields[op[1]] = op[2]
+                setattr(b, op[1], op[2])
+            if asked:
+                changed_after_ask = True
+                labels.append("field-assigned-after-query")
+            continue
         if op[0] == "nonce":
             nonce = op[1]
             b.set_nonce(nonce)
@@ -154,7 +173,9 @@ def s_header_history():
     from gen.common import weighted
     u32 = boundary_ints(0, 2 ** 32 - 1)
     op = weighted((3, st.just(["id"])), (2, st.just(["hash"])), (1, st.just(["as_bin"])), (1, st.just(["str"])),
-                  (3, st.tuples(st.just("nonce"), u32).map(list)))
+                  (3, st.tuples(st.just("nonce"), u32).map(list)),
+                  (3, st.tuples(st.just("set"), st.sampled_from(["timestamp", "timestamp", "merkle_root", "version", "difficulty",
+                                                                  "previous_block_hash", "nonce"]), u32).map(list)))
     return st.builds(lambda h, ops: dict(h, ops=ops), s_header(), st.lists(op, min_size=3, max_size=9))
 
 
@@ -586,7 +607,7 @@ SUBCHECKS = [
                   "reversed SHA256d of the reference bytes"),
     SubCheck("header_history", o_header_history, strategy=s_header_history, budget=(1500, 100000),
              nontrivial=lambda c, l: "query-after-set_nonce-after-query" in l,
-             rule="one long-lived header object, 3-9 operations: id() / hash() / as_bin() / str() queries interleaved with set_nonce(n); every answer equals the reference for the 80 bytes as they are at that moment; non-trivial = a query after a set_nonce that itself followed a query"),
+             rule="one long-lived header object, 3-9 operations: id() / hash() / as_bin() / str() queries interleaved with set_nonce(n) and direct assignment of the public header fields (timestamp, merkle_root, version, difficulty, previous_block_hash, nonce); every answer equals the reference for the 80 bytes as they are at that moment; non-trivial = a query after a set_nonce that itself followed a query"),
     SubCheck("blocks", o_block, strategy=s_block, budget=(1500, 60000), nontrivial=nt_block,
              rule="blocks of n in {1,2,3,4,5,7,8,9,15,16,17,31,33} or uniform <= 120 small transactions (1-3 inputs/outputs, scripts 0-300 "
                   "bytes, 1/4 BIP144 form) serialised by the reference: from_bin(b).as_bin() == b, id, per-transaction hashes, p2p block "
